@@ -207,19 +207,24 @@ pub open spec fn intent_durable(log: Seq<DiskEvent>, extents: Seq<(u64, usize)>)
     &&& forall|i: int| 1 <= i < log.len() ==> failed_data(#[trigger] log[i])
 }
 
-pub open spec fn data_durable(log: Seq<DiskEvent>, extents: Seq<(u64, usize)>, sectors: Seq<u64>) -> bool {
+// the head sectors the intent journal names
+pub open spec fn heads_of(extents: Seq<(u64, usize)>) -> Seq<u64> {
+    extents.map_values(|e: (u64, usize)| e.0)
+}
+
+pub open spec fn data_durable(log: Seq<DiskEvent>, extents: Seq<(u64, usize)>) -> bool {
     &&& log.len() >= 2
     &&& log[0] == (DiskEvent::Journal { extents, ok: true })
-    &&& log[log.len() - 1] == (DiskEvent::Data { sectors, ok: true })
+    &&& log[log.len() - 1] == (DiskEvent::Data { sectors: heads_of(extents), ok: true })
     &&& forall|i: int| 1 <= i < log.len() - 1 ==> failed_data(#[trigger] log[i])
 }
 
 // C03/C09: a record's sector is published only when the device history of the batch reads
-//   journal(intent for exactly the batch's extents) ok, [failed data attempts], data(batch) ok, journal clear ok
-pub open spec fn publish_ready(log: Seq<DiskEvent>, extents: Seq<(u64, usize)>, sectors: Seq<u64>) -> bool {
+//   journal(intent for exactly the batch's extents) ok, [failed data attempts], data(written at exactly the journaled runs) ok, journal clear ok
+pub open spec fn publish_ready(log: Seq<DiskEvent>, extents: Seq<(u64, usize)>) -> bool {
     &&& log.len() >= 3
     &&& log[0] == (DiskEvent::Journal { extents, ok: true })
-    &&& log[log.len() - 2] == (DiskEvent::Data { sectors, ok: true })
+    &&& log[log.len() - 2] == (DiskEvent::Data { sectors: heads_of(extents), ok: true })
     &&& log[log.len() - 1] == (DiskEvent::Clear { ok: true })
     &&& forall|i: int| 1 <= i < log.len() - 2 ==> failed_data(#[trigger] log[i])
 }
